@@ -367,12 +367,27 @@ fn through_files(cases: &[Case], a: &ShardArgs) -> (usize, Vec<String>) {
     std::fs::create_dir_all(&dir).expect("scratch dir");
     let mut bad = Vec::new();
     let mut n = 0;
-    for (i, c) in cases.iter().enumerate() {
-        let path = dir.join(format!("c{i}.feature"));
+    for (k, c) in cases.iter().enumerate() {
+        // the three ways `parser::Basic` finds a file: the file itself, its directory,
+        // the `--input <glob>` option
+        let (i, mode) = (k, k % 3);
+        let sub = dir.join(format!("d{i}"));
+        std::fs::create_dir_all(&sub).expect("scratch dir");
+        let path = sub.join(format!("c{i}.feature"));
         std::fs::write(&path, c.text()).unwrap();
         let parsed = gherkin::Feature::parse(c.text(), GherkinEnv::default()).unwrap();
+        let (input, cli) = match mode {
+            0 => (path.clone(), cucumber::parser::basic::Cli::default()),
+            1 => (sub.clone(), cucumber::parser::basic::Cli::default()),
+            _ => (
+                dir.clone(),
+                cucumber::parser::basic::Cli {
+                    features: Some(format!("{}/*.feature", sub.display()).parse().expect("glob")),
+                },
+            ),
+        };
         let items: Vec<parser::Result<gherkin::Feature>> = cucumber::parser::Basic::new()
-            .parse(path.clone(), cucumber::parser::basic::Cli::default())
+            .parse(input, cli)
             .collect::<Vec<_>>()
             .now_or_never()
             .expect("parser suspended");
@@ -464,7 +479,7 @@ pub fn run(a: &ShardArgs) -> serde_json::Value {
         "property": "C16", "tier": a.tier,
         "total_configs": cs.len(), "configs_done": evaluations, "configs_skipped_budget": skipped,
         "evaluations": evaluations + nfiles, "distinct_nontrivial": nontrivial.len(),
-        "rule": "generated feature texts: outline top-level/in rule x Examples tables (1-2, tagged or not, columns a/b in both orders, 0-2 data rows, header only, values from {1,<b>,x>y,$1,.*,<,a b,é}) x placeholder templates in name / step text / doc string / table cell; parsed by gherkin, expanded by Ext::expand_examples (and a subset through parser::Basic on files); non-trivial = at least one data row",
+        "rule": "generated feature texts: outline top-level/in rule x Examples tables (1-2, tagged or not, columns a/b in both orders, 0-2 data rows, header only, values from {1,<b>,x>y,$1,.*,<,a b,é}) x placeholder templates in name / step text / doc string / table cell; parsed by gherkin, expanded by Ext::expand_examples (and a subset through parser::Basic on files, found as a file, through its directory and through --input <glob>); non-trivial = at least one data row",
         "exhaustive": skipped == 0,
         "details": {"expanded_scenarios_checked": expanded_total, "error_cases": errors_total, "through_parser_basic_files": nfiles},
         "violations": violations, "samples": samples,
